@@ -103,6 +103,107 @@ static void check_stream(const struct gstream *g, void *ctx)
 			}
 }
 
+/* ---- window-edge part: isal_inflate() decodes into its internal 64 KiB window first and, once that has been handed over,
+ * straight into the caller's buffer. Where the decode kernel runs out of room therefore does NOT depend on small caller
+ * buffers but on (a) the amount of output produced before (window edge at 65536) and (b) the end of a large caller buffer.
+ * Every small token stream is therefore placed behind a stored filler so that EVERY one of its output positions in turn
+ * coincides with (a) the window edge and (b) the end of the first caller buffer. */
+static uint8_t *EB, *EX, *EO;
+static void edge_run(const struct gstream *g, size_t P, size_t first_out, int junk, int cpu, const char *what)
+{
+	char key[420];
+	/* stream = stored filler of P bytes (non-final blocks) + g; expected output = filler + g->x */
+	size_t bl = 0, left = P, off = 0;
+	while (left) {
+		size_t n = left > 65535 ? 65535 : left;
+		EB[bl++] = 0;
+		EB[bl++] = (uint8_t)n; EB[bl++] = (uint8_t)(n >> 8); EB[bl++] = (uint8_t)~n; EB[bl++] = (uint8_t)(~n >> 8);
+		memcpy(EB + bl, gs_pre + off % 4096, n); /* filler content: xorshift preamble data */
+		memcpy(EX + off, gs_pre + off % 4096, n);
+		bl += n; off += n; left -= n;
+	}
+	size_t gb = (g->end_bit + 7) / 8;
+	memcpy(EB + bl, g->body, gb);
+	bl += gb;
+	memcpy(EX + P, g->x, g->xlen);
+	size_t xl = P + g->xlen;
+	memset(EB + bl, 0xA5, junk);
+	size_t inlen = bl + junk;
+	cpu_set_level(cpu);
+	struct inflate_state *st = g_alloc(sizeof *st, G_END);
+	int ret = -999, fault = 0, calls = 0;
+	size_t cap = first_out ? first_out : xl;
+	if (V_TRY()) {
+		isal_inflate_init(st);
+		st->next_in = EB; st->avail_in = inlen;
+		st->next_out = EO; st->avail_out = cap;
+		do {
+			ret = isal_inflate(st);
+			if (st->avail_out == 0 && (size_t)(st->next_out - EO) < xl + 8)
+				st->avail_out = EO + xl + 8 - st->next_out; /* the rest (+8 so that surplus output is visible) */
+		} while (ret == ISAL_DECOMP_OK && st->block_state != ISAL_BLOCK_FINISH && ++calls < 6);
+		V_END();
+	} else
+		fault = 1;
+	v_eval();
+	snprintf(key, sizeof key, "window-edge %s: %s filler=%zu first-avail_out=%zu junk=%d cpu=%s", what, g->desc, P, cap, junk, cpu_level_name[cpu]);
+	size_t got = st->next_out - EO;
+	size_t in_pos = (inlen - st->avail_in) - (st->read_in_length > 0 ? st->read_in_length / 8 : 0);
+	if (fault) {
+		v_violation(key, "fault %s", v_fault_desc());
+		nfail++;
+	} else if (ret != ISAL_DECOMP_OK || st->block_state != ISAL_BLOCK_FINISH) {
+		v_violation(key, "return %d block_state %d after %zu of %zu bytes", ret, st->block_state, got, xl);
+		nfail++;
+	} else if (got != xl || memcmp(EO, EX, xl)) {
+		size_t i = 0;
+		while (i < got && i < xl && EO[i] == EX[i])
+			i++;
+		v_violation(key, "output differs from the expected bytes at offset %zu (%zu vs %zu bytes)", i, got, xl);
+		nfail++;
+	} else if (st->total_out != (uint32_t)xl || in_pos != bl) {
+		v_violation(key, "total_out %u (expected %zu), reported input position %zu (stream ends at %zu)", st->total_out, xl, in_pos, bl);
+		nfail++;
+	}
+	v_count("window_edge_runs", 1);
+	g_reset();
+}
+static void edge_stream(const struct gstream *g, void *ctx)
+{
+	(void)ctx;
+	if (nfail > 40 || v_deadline_hit() || g->xlen == 0 || g->xlen > (v_thorough ? 600 : 80))
+		return;
+	static const int cpus[] = { CPU_BASE, CPU_SSE, CPU_AVX2 };
+	static int gate;
+	/* reference gate once per process: the concatenation (stored filler + stream) decodes to filler + payload */
+	for (int ji = 0; ji < 2; ji++) {
+		int junk = ji ? 5000 : 0;
+		for (int ci = 0; ci < 3; ci++) {
+			/* (a) each output position of the stream at the internal window edge (65536 bytes produced) */
+			for (size_t e = 0; e <= g->xlen + 1; e++)
+				if (65536 + 1 >= e)
+					edge_run(g, 65536 + 1 - e, 0, junk, cpus[ci], "internal-window");
+			/* (b) each output position of the stream at the end of the first (large) caller buffer, decoded in direct mode */
+			for (size_t e = 0; e <= g->xlen; e++)
+				edge_run(g, 70000, 70000 + e, junk, cpus[ci], "caller-buffer");
+		}
+	}
+	if (!gate) {
+		gate = 1;
+		struct ri_opts o;
+		memset(&o, 0, sizeof o);
+		rr.out = refout;
+		rr.out_cap = GS_MAXOUT;
+		/* rebuild the last stream and let the reference decode it */
+		edge_run(g, 65530, 0, 0, CPU_BASE, "gate");
+		ref_inflate(EB, 65530 + 5 * 2 + (g->end_bit + 7) / 8, &o, &rr);
+		if (rr.verdict != RI_VALID || rr.out_len != 65530 + g->xlen || memcmp(refout, EX, rr.out_len))
+			v_broken("window-edge gate: reference disagrees with the constructed filler+stream (%d %s)", rr.verdict, rr.why ? rr.why : "");
+	}
+	v_count("window_edge_streams", 1);
+	v_nontrivial(v_mix(v_hash(g->body, g->blen, 0), 0xed6e));
+}
+
 int main(int argc, char **argv)
 {
 	v_init(argc, argv, "C02");
@@ -110,6 +211,18 @@ int main(int argc, char **argv)
 	wrapped = malloc(GS_MAXBODY + 8192);
 	refout = malloc(GS_MAXOUT);
 	uint64_t idx = 0;
+	if (v_part && !strcmp(v_part, "edge")) {
+		EB = malloc(90000 + GS_MAXBODY); EX = malloc(90000 + GS_MAXOUT); EO = malloc(90000 + GS_MAXOUT);
+		gs_family_tokens(2, 1, mine, &idx, edge_stream, NULL);
+		gs_family_shapes(mine, &idx, edge_stream, NULL);
+		if (v_shard == 0) {
+			v_sample("window-edge internal-window: F1 dyn-balanced[La] behind a stored filler of 65536 bytes, junk=5000, cpu=avx2: the literal and the end-of-block code share one lookup entry and the internal window is full exactly in front of it");
+			v_note("edge part: every output position of every small token stream is made to coincide with the 65536-byte internal window edge (filler length sweep) and with the end of a 70000+e byte first caller buffer (direct-mode decode)");
+		}
+		return v_finish();
+	}
+	if (v_part && strcmp(v_part, "streams"))
+		return v_finish();
 	full_modes = 1;
 	gs_family_shapes(mine, &idx, check_stream, NULL);
 	gs_family_tokens(v_thorough ? 3 : 2, 1, mine, &idx, check_stream, NULL);
